@@ -26,7 +26,7 @@ op3 == hist[3]
 Init == heap = <<>> /\ hist = <<>>
 
 NeedsJointQ == Ops \subseteq {"int_log_cond"}
-POff == IF \A s \in Offs : s >= 10 THEN 11 ELSE 1     \* anisotropic sessions (offsets >= 10) also get a badly scaled p
+POff == IF \A s \in Offs : s >= 20 THEN 21 ELSE IF \A s \in Offs : s >= 10 THEN 11 ELSE 1     \* anisotropic sessions (offsets >= 10) also get a badly scaled p
 
 Op ==
     LET c == heap[1] p == heap[2] IN
